@@ -169,11 +169,54 @@ def _regex_ends_in_newline(e: Engine, module, name: str) -> Optional[bool]:
     return str(op) == 'LITERAL' and arg == 10
 
 
+def _cut_after_found_newline(g, fx, n):
+    """`buf = X[i + k:]` with i = X.find(<literal ending in LF>),
+    k = len(literal), reached only where the find succeeded: returns the
+    literal, else None."""
+    v = n.ast.value
+    if not (isinstance(v, ast.Subscript) and isinstance(v.slice, ast.Slice)
+            and v.slice.upper is None and
+            isinstance(v.slice.lower, ast.BinOp) and
+            isinstance(v.slice.lower.op, ast.Add)):
+        return None
+    lo = v.slice.lower
+    iv, kc = lo.left, lo.right
+    if isinstance(iv, ast.Constant):
+        iv, kc = kc, iv
+    if not (isinstance(iv, ast.Name) and isinstance(kc, ast.Constant) and
+            isinstance(kc.value, int)):
+        return None
+    src = ast.unparse(v.value)
+    defs = [s for s in g.of_kind('stmt') if s.frame is n.frame and
+            isinstance(s.ast, ast.Assign) and any(
+                isinstance(t, ast.Name) and t.id == iv.id
+                for t in s.ast.targets)]
+    if len(defs) != 1:
+        return None
+    d = defs[0].ast.value
+    if not (isinstance(d, ast.Call) and isinstance(d.func, ast.Attribute) and
+            d.func.attr in ('find', 'index') and
+            ast.unparse(d.func.value) == src and d.args and
+            isinstance(d.args[0], ast.Constant) and
+            isinstance(d.args[0].value, bytes) and
+            d.args[0].value.endswith(b'\n') and
+            kc.value == len(d.args[0].value) and len(d.args) == 1):
+        return None
+    ip = path_of(iv, n.frame)
+    st = fx.at(n) or frozenset()
+    found = d.func.attr == 'index' or any(
+        (not p and k == '%s == -1' % ip) or (p and k == '0 <= %s' % ip) or
+        (p and k == '-1 < %s' % ip) for p, k in st)
+    return d.args[0].value if found else None
+
+
 def g2(e: Engine, rep: Report, rule: str,
        meths=('recv_line', 'recv_reply')):
     for meth in meths:
         ctx = e.method_ctx(IOC, meth)
-        g = e.build(ctx, raises=lambda b, n, r: set())
+        g = e.build(ctx, raises=lambda b, n, r: set(),
+                    inline=e.inline_same_self(deny=['buffered_recv']),
+                    max_depth=3)
         fx = e.facts(g)
         where = ctx.func.qname
         rep.functions.add(where)
@@ -196,7 +239,9 @@ def g2(e: Engine, rep: Report, rule: str,
             mv = path_of(v.slice.lower.func.value, n.frame) if ok_shape \
                 else None
             st = fx.at(n)
-            ok = ok_shape and mv is not None and holds(st, (True, mv))
+            # a match object is truthy: `m is not None` says as much as `m`
+            ok = ok_shape and mv is not None and (
+                holds(st, (True, mv)) or holds(st, (False, mv + ' is None')))
             # the match object comes from a pattern ending in \n
             pats = set()
             if mv is not None:
@@ -209,6 +254,13 @@ def g2(e: Engine, rep: Report, rule: str,
                         pats.add(s.ast.value.func.value.id)
             nl = [_regex_ends_in_newline(e, ctx.func.module.name, pn)
                   for pn in pats]
+            if not (ok and nl and all(x is True for x in nl)):
+                # the same thing without a regex: cut right behind a line
+                # feed that find() located
+                alt = _cut_after_found_newline(g, fx, n)
+                if alt:
+                    ok, nl = True, [True]
+                    pats = {'find(%r)' % alt}
             rep.check(ok and nl and all(x is True for x in nl), rule, where,
                       'consumption `%s`' % n.text(50),
                       'bytes are removed from recv_buffer without a '
